@@ -81,8 +81,20 @@ def main():
     for c in checks:
         t0 = time.time()
         rc, out = sh(f"./check {c} quick", cwd=VT, env={"VERIF_REPO": wt}, timeout=3000)
-        lines = [l for l in out.split("\n") if l.startswith(("VIOLATION", "KNOWN-FINDING", c + " "))]
-        det[c] = {"exit": rc, "wall_s": round(time.time() - t0, 1), "lines": [l[:300] for l in lines[:6]]}
+        lines = [l for l in out.split("\n") if l.startswith(("VIOLATION", c + " "))]
+        det[c] = {"exit": rc, "wall_s": round(time.time() - t0, 1), "lines": [l[:300] for l in lines[:8]],
+                  "violations": sum(1 for l in lines if l.startswith("VIOLATION")),
+                  "with_failing_input": sum(1 for l in lines if l.startswith("VIOLATION") and "no-failing-input-found" not in l)}
+        whats = []
+        for l in lines:
+            rp1 = re.search(r"replay=(\S+)", l)
+            if rp1 and os.path.exists(rp1.group(1)):
+                try:
+                    rj = json.load(open(rp1.group(1)))
+                    whats.append((rj.get("kind"), (rj.get("what") or str(rj.get("broken")))[:200]))
+                except Exception:
+                    pass
+        det[c]["replays"] = whats[:8]
         rp = re.search(r"replay=(\S+)", out)
         if rp and os.path.exists(rp.group(1)):
             try:
